@@ -17,6 +17,13 @@ CHECKS = {
         design="DESIGN.md 5 (C01)",
         technique="TLA+ spec + TLC exhaustive; spec->code replay of every dumped terminal state; code->spec trace validation",
     ),
+    "C04": dict(
+        engine="tla-ap",
+        text="TLC checks on Ap.tla, for every ranking up to length N over {TP(w), FP, ignored} and every ground-truth count, that the operational AP/APH (the implementation's cumulative sums + backward envelope) equals the declarative area under the interpolated precision-recall curve, bounds 0<=APH<=AP<=1 under one-to-one matching, AP=1 / AP=0 cases; every enumerated (ranking, g) is realised as real object results and Ap.tp_list/fp_list/ap, APH and Map compared with the exact rationals; random buckets up to 300 results and multi-label Maps are validated as traces by TLC (Trace_Ap.tla) in fixed point.",
+        note="exact rationals for rankings <= 6 (thorough) / 5 (quick) with heading weights in {0, 1/2, 1}; long rankings in 1e-6 fixed point with a stated error bound; heading weight values themselves are C09; manager-level AP is checked in C03/C07/C13",
+        design="DESIGN.md 5 (C04)",
+        technique="TLA+ spec + TLC exhaustive; spec->code replay of every dumped state; code->spec trace validation",
+    ),
     "C02": dict(
         engine="tla-matching",
         text="Same specification and runs as C01; the no-blocking-pair predicates, stage order, exactness without ties (declarative Greedy2) and "
